@@ -226,27 +226,18 @@ Definition type_pred (f : fname) (v : jv) : bool :=
   | _, _ => false
   end.
 
-(* Go's == on interface values inside include: comparable scalars only *)
+(* include on a list: membership by the package's deep equality (equalVals);
+   None: a comparison involves floats and is left undecided *)
 Definition include_list (l : list jv) (v : jv) : option (option bool) :=
-  (* comparing two slices or two maps with == is a runtime panic; values of different dynamic types are just unequal *)
-  if match v with JArr _ => existsb (fun m => match m with JArr _ => true | _ => false end) l
-                | JObj _ => existsb (fun m => match m with JObj _ => true | _ => false end) l
-                | _ => false end then Some None
-  else if is_container v then Some (Some false)
-  else
   (fix go (l : list jv) : option (option bool) :=
      match l with
      | [] => Some (Some false)
      | m :: l' =>
-         let same := match m, v with
-                     | JNull, JNull => true
-                     | JBool a, JBool b => Bool.eqb a b
-                     | JInt a, JInt b => a =? b
-                     | JStr a, JStr b => bytes_eqb a b
-                     | JFloat a, JFloat b => bytes_eqb a b
-                     | _, _ => false
-                     end in
-         if same then Some (Some true) else go l'
+         match equal_vals m v with
+         | Some true => Some (Some true)
+         | Some false => go l'
+         | None => None
+         end
      end) l.
 
 Fixpoint is_sub (needle hay : bytes) : bool :=
